@@ -1153,3 +1153,80 @@ Proof.
   - intros O. rewrite O. now rewrite andb_false_r.
   - intros [A1 A2] O. rewrite O. apply Z.leb_le in A1. apply Z.ltb_lt in A2. now rewrite A1, A2.
 Qed.
+
+(* ------------------------------------------------------------------------------------------------ *)
+(** * The table of open SD files: reorganising it never moves or drops an open file *)
+Lemma highest_acc_or_ge : forall l i acc, highest l i acc = acc \/ i <= highest l i acc.
+Proof.
+  induction l as [|x t IH]; intros i acc; simpl; auto.
+  destruct x.
+  - destruct (IH (i + 1) i) as [E|E]; right; lia.
+  - destruct (IH (i + 1) acc) as [E|E]; [left; auto|right; lia].
+Qed.
+
+Lemma highest_ge : forall l i acc p o, slot_at l p = Some o -> i + Z.of_nat p <= highest l i acc.
+Proof.
+  induction l as [|x t IH]; intros i acc p o H.
+  - unfold slot_at in H. destruct p; discriminate.
+  - destruct p as [|p].
+    + unfold slot_at in H. simpl in H. destruct x; [|discriminate]. simpl.
+      destruct (highest_acc_or_ge t (i + 1) i); lia.
+    + unfold slot_at in *. simpl in H. simpl highest.
+      specialize (IH (i + 1) (match x with Some _ => i | None => acc end) p o H). lia.
+Qed.
+
+Lemma nth_error_ct_build : forall n i size alloc l p,
+  nth_error (ct_build n i size alloc l) p =
+  if (p <? n)%nat then Some (if NC_reset_copy_cond (i + Z.of_nat p) size alloc =? 0 then None
+                             else match nth_error l p with Some x => x | None => None end)
+  else None.
+Proof.
+  induction n as [|n IH]; intros i size alloc l p.
+  - destruct p; reflexivity.
+  - destruct p as [|p].
+    + cbn [ct_build nth_error Nat.ltb Nat.leb Z.of_nat]. rewrite Z.add_0_r. destruct l; reflexivity.
+    + cbn [ct_build nth_error]. rewrite IH. change (S p <? S n)%nat with (p <? n)%nat.
+      replace (i + 1 + Z.of_nat p) with (i + Z.of_nat (S p)) by lia.
+      destruct l; [destruct p; reflexivity|reflexivity].
+Qed.
+
+Lemma slot_at_length : forall l p o, slot_at l p = Some o -> (p < length l)%nat.
+Proof.
+  intros l p o H. unfold slot_at in H. destruct (nth_error l p) eqn:E; [|discriminate].
+  apply nth_error_Some. congruence.
+Qed.
+
+Lemma ct_reset_keeps_open_files_lemma : forall t req lim p o,
+  ct_check (Z.of_nat p) t = Some o ->
+  ct_check (Z.of_nat p) (snd (ct_reset req lim t)) = Some o.
+Proof.
+  intros t req lim p o H. unfold ct_reset.
+  destruct (negb (NC_reset_neg_guard req =? 0)); [exact H|].
+  destruct (ctab t) as [|x0 l0] eqn:ET.
+  { unfold ct_check in H. rewrite ET in H. destruct (NC_check_range (Z.of_nat p) (cncdf t) =? 0); [discriminate|].
+    unfold slot_at in H. destruct (Z.to_nat (Z.of_nat p)); discriminate. }
+  rewrite <- ET.
+  destruct (negb (NC_reset_curr_guard req (ccurr t) =? 0)); [exact H|].
+  set (alloc := if NC_reset_limit_cond req lim =? 0 then req else lim).
+  destruct (negb (NC_reset_guard alloc (highest (ctab t) 0 (-1)) =? 0)) eqn:GD; [exact H|].
+  cbn [snd]. unfold ct_check in *. cbn [cncdf ctab].
+  unfold NC_check_range in *. rewrite Nat2Z.id in *.
+  destruct (0 <=? Z.of_nat p) eqn:P0; [|discriminate]. destruct (Z.of_nat p <? cncdf t) eqn:P1; [|discriminate].
+  cbn in H. apply Z.ltb_lt in P1.
+  assert (HI := highest_ge (ctab t) 0 (-1) p o H).
+  assert (LEN := slot_at_length _ _ _ H).
+  (* the guard let the request through: the new size exceeds the highest occupied position *)
+  unfold NC_reset_guard in GD. destruct (alloc <=? highest (ctab t) 0 (-1)) eqn:GE; [discriminate|].
+  apply Z.leb_gt in GE.
+  assert (PA : Z.of_nat p < alloc) by lia.
+  assert (R : Z.of_nat p <? (if NC_reset_clamp_cond (cncdf t) alloc =? 0 then cncdf t else alloc) = true).
+  { unfold NC_reset_clamp_cond. destruct (alloc <? cncdf t); cbn; apply Z.ltb_lt; lia. }
+  rewrite R. cbn.
+  unfold slot_at, ct_newlist. rewrite nth_error_ct_build.
+  replace (p <? Z.to_nat alloc)%nat with true by (symmetry; apply Nat.ltb_lt; lia).
+  rewrite Z.add_0_l. unfold NC_reset_copy_cond.
+  replace (Z.of_nat p <? Z.of_nat (length (ctab t))) with true by (symmetry; apply Z.ltb_lt; lia).
+  replace (Z.of_nat p <? alloc) with true by (symmetry; apply Z.ltb_lt; lia).
+  cbn. unfold slot_at in H. destruct (nth_error (ctab t) p) as [[v|]|]; try discriminate. exact H.
+Qed.
+
